@@ -189,15 +189,21 @@ class CodeHang(Exception):
 
 @contextmanager
 def time_limit(seconds: int):
+    """limit on the *CPU time* the call may use (a loop that does not end burns CPU whatever the load of the machine;
+    wall-clock time would turn a busy machine into false alarms), with a wall-clock backstop ten times as long"""
     def _raise(signum, frame):
-        raise CodeHang(f"no result after {seconds}s")
-    old = signal.signal(signal.SIGALRM, _raise)
-    signal.alarm(seconds)
+        raise CodeHang(f"no result after {seconds}s of CPU time (or {10 * seconds}s of wall-clock time)")
+    old_prof = signal.signal(signal.SIGPROF, _raise)
+    old_alrm = signal.signal(signal.SIGALRM, _raise)
+    signal.setitimer(signal.ITIMER_PROF, seconds)
+    signal.alarm(10 * seconds)
     try:
         yield
     finally:
+        signal.setitimer(signal.ITIMER_PROF, 0)
         signal.alarm(0)
-        signal.signal(signal.SIGALRM, old)
+        signal.signal(signal.SIGPROF, old_prof)
+        signal.signal(signal.SIGALRM, old_alrm)
 
 
 # ---------------------------------------------------------------- parallel map
@@ -238,16 +244,22 @@ def pmap(fn: Callable, items: Iterable, *, procs: int = 16, chunk: int = 64, lim
     return out
 
 
-def chunked(size=4000):
-    """judge large batches in several TLC runs (a trace file of hundreds of MB is slow to deserialise)"""
+def chunked(size=4000, max_bytes=12_000_000):
+    """judge large batches in several TLC runs: at most `size` cases and about `max_bytes` of JSON per run (TLC's JSON
+    reader gave up on a 109 MB trace file; hundreds of MB are slow anyway)"""
     def wrap(fn):
         def inner(cases, *a, **k):
-            if len(cases) <= size:
-                return fn(cases, *a, **k)
-            out = {}
-            for off in range(0, len(cases), size):
-                part = fn(cases[off:off + size], *a, **k)
+            out, off = {}, 0
+            while off < len(cases):
+                n, total = 0, 0
+                while off + n < len(cases) and n < size:
+                    total += len(json.dumps(cases[off + n], default=str))
+                    if n and total > max_bytes:
+                        break
+                    n += 1
+                part = fn(cases[off:off + n], *a, **k)
                 out.update({off + i: v for i, v in part.items()})
+                off += n
             return out
         inner.__name__ = fn.__name__
         return inner
